@@ -100,6 +100,9 @@ type c10Base struct {
 	// Cart: 0 = type 10 (MBC3+TIMER+RAM+BATTERY, 8 KiB RAM x 4); 1 = type 0F (MBC3+TIMER+BATTERY, no RAM);
 	// 2 = type 10 with 128 ROM pages and no RAM: the clock belongs to every cartridge that carries a timer
 	Cart int `json:"cart,omitempty"`
+	// Busy > 0: every Busy machine cycles the guest starts an OAM DMA transfer (FF46) — memory hardware that shares the
+	// per-cycle step with the clock; the clock counts every machine cycle whatever else the memory hardware is doing
+	Busy int `json:"busy,omitempty"`
 }
 
 var c10Carts = []cartSpec{c10Cart, {0x0f, 1, 0}, {0x10, 6, 0}}
@@ -116,6 +119,9 @@ func c10TimeBase(l *explore.Local, _ struct{}, c c10Base) *explore.Fail {
 		return p.observeClock("elapsed machine cycles")
 	}
 	for i := 1; i <= c.N; i++ {
+		if c.Busy > 0 && i%c.Busy == 0 {
+			p.m.Map.Write(0xff46, 0xc0)
+		}
 		p.m.Map.EndMachineCycle()
 		p.mod.Clock.Tick()
 		l.Trans(1)
@@ -277,7 +283,7 @@ func init() {
 					}
 				}
 			}, func() *cartPair { return newCartPair(c10Cart) }, c10Carry)
-		explore.Product(c.R, "time-base", explore.PartOpt{Bound: "0-40 cycles from each preset; 2 x 1,048,576 cycles un-hooked", Domain: "sub-second presets {0..16} and {2^20-17..2^20-1}, halted/running, seconds 58/59/63; the boundary presets and the long run again on cartridge type 0F (timer, no RAM) and on type 10 with 128 ROM pages and no RAM"},
+		explore.Product(c.R, "time-base", explore.PartOpt{Bound: "0-40 cycles from each preset; 2 x 1,048,576 cycles un-hooked", Domain: "sub-second presets {0..16} and {2^20-17..2^20-1}, halted/running, seconds 58/59/63; the boundary presets and the long run again on cartridge type 0F (timer, no RAM) and on type 10 with 128 ROM pages and no RAM; the long run and a second boundary again with OAM DMA transfers started every 997 / 150 cycles"},
 			func(yield func(c10Base) bool) {
 				for _, halt := range []bool{false, true} {
 					for _, s := range []uint8{58, 59, 63} {
@@ -294,6 +300,8 @@ func init() {
 					}
 				}
 				yield(c10Base{Sub: -1, N: 2*ref.CyclesPerSecond + 8})
+				yield(c10Base{Sub: -1, N: 2*ref.CyclesPerSecond + 8, Busy: 997}) // OAM DMA transfers in flight for a sixth of the time
+				yield(c10Base{Sub: ref.CyclesPerSecond - 200, N: 400, Start: 59, Busy: 150})
 				for cart := 1; cart < len(c10Carts); cart++ {
 					for _, halt := range []bool{false, true} {
 						for _, sub := range []int{0, ref.CyclesPerSecond - 2, ref.CyclesPerSecond - 1} {
